@@ -4,6 +4,7 @@ from __future__ import annotations
 import copy
 from ipaddress import IPv4Address
 
+from vlib import chdriver
 from vlib.chdriver import all_of, any_of, assume, check, cover, fail, pick, pick_int, rng
 from vlib.fixtures import concrete, mini_scenario, normalise, quiet
 
@@ -266,6 +267,15 @@ def config_inventory(
         check(bool(eff.capture_nmne) == bits["nmne"], lambda: f"NMNE capture in effect is {eff.capture_nmne}, the scenario declares {bits['nmne']}" + (" (another scenario was loaded before)" if b_prev else ""))
         check(list(eff.nmne_capture_keywords) == want_kw, lambda: f"NMNE keywords in effect are {list(eff.nmne_capture_keywords)}, the scenario declares {want_kw}" + (" (another scenario was loaded before)" if b_prev else ""))
         check(bool(NICObservation.capture_nmne) == bits["nmne"], "the observation layer's NMNE capture flag differs from the scenario's declaration")
+        # the episode set-up that every PrimaiteGymEnv.reset() runs on the freshly built game leaves the inventory as declared
+        try:
+            game.setup_for_episode(episode=1)
+        except Exception as e:
+            fail(f"setup_for_episode raised {type(e).__name__}: {str(e)[:200]}")
+        try:
+            _check_inventory(game, inv)
+        except chdriver.PropertyViolated as e:
+            fail("after setup_for_episode: " + str(e))
         if perm:
             # key-order permutation builds the same simulation
             cfg0 = _scenario(bits, pos, dup, bw, False)
